@@ -5,18 +5,25 @@ Spec: specs/HotUpdate.tla (+ _Gen, _Trace).  Phases (VERIF_PHASES=probe,mc,mbt,k
          Inherit of RateLimiter / Proxy treats the previous generation's state cell (move/share/fresh)
          and what Close does to Handle
   mc     TLC checks the contract (Consistent, NoFailure, Available, Visibility, Isolation, Settled,
-         IsolationStep, NoOp) exhaustively for the contract's modes; shows that the invariants are
-         not vacuous (two deliberately wrong knobs must violate them); checks the observed modes -
+         Configured, Limited, IsolationStep, NoOp) exhaustively for the contract's modes; shows that the
+         invariants are not vacuous (five deliberately wrong knobs must violate them); checks the observed modes -
          a violation there is a lead (a schedule), decided by replaying schedules on the real code
   mbt    TLC-generated schedules replayed step by step on the real mux + TrafficController +
          Pipelines + filters (httpserver harness), on the TrafficController (trafficcontroller
          harness), on bare RateLimiter / Proxy instances
   kinds  the same schedules on a real one-filter Pipeline of every filter kind that can be built offline
+Configuration dimensions (strengthening round): a pipeline generation is [fv, pv] - version of its filters and of its
+resilience section - and an update changes either or both (PipKinds); request classes make the configuration of the
+generation a request holds observable on the real code: class "x" (POST: a URL rule every generation limits to 1 permit
+per hour - the limiter is the state cell generations share; must still limit after Close(prev)), class "f" (the backend
+answers 503: the Proxy makes maxAttempts = pv + 1 attempts, the retry policy of the held generation's resilience section).
+Judged only on generations that are not closed; baselines on a first generation guard the reading.
   tv     stress: concurrent requests vs. an updater on the real objects, validated by TLC
          (HotUpdate_Trace); -race in the thorough tier
 """
 import concurrent.futures
 import json
+import os
 import re
 import threading
 
@@ -29,13 +36,14 @@ P_RL = "pkg/filters/ratelimiter"
 P_PX = "pkg/filters/proxy"
 
 CONTRACT_MODES = {"InhRl": "share", "ClsRl": "none", "InhPx": "fresh", "ClsPx": "stop"}
-INVS = "INVARIANTS TypeOK Consistent NoFailure Available Visibility Isolation Settled\nPROPERTIES IsolationStep NoOp\n"
+INVS = "INVARIANTS TypeOK Consistent NoFailure Available Visibility Isolation Settled Configured Limited\nPROPERTIES IsolationStep NoOp\n"
 KIND_NAMES = {"rl": "RateLimiter", "px": "Proxy"}
 LOCK = threading.Lock()
 
 
 def cfg(modes, kinds="KindsFull", reqs=2, ops=2, srv=2, pip=2, other=2, same=1, maxreq=1, targets='{"srv","q"}',
-        atomic="fine", lps=False, props=True, view=True, srvkinds='{"rules","opts","both"}', ips='{"n","b"}', mc=False):
+        atomic="fine", lps=False, props=True, view=True, srvkinds='{"rules","opts","both"}', ips='{"n","b"}', mc=False,
+        pipkinds='{"both"}', classes='{"n"}', reuse=False, blocking='{"px"}'):
     """cfg text for HotUpdate_MC (mc=True: exhaustive checking, no `out` variable) or HotUpdate_Gen (behaviour generation)"""
     rs = ",".join('"r%d"' % i for i in range(1, reqs + 1))
     t = ("SPECIFICATION %s\nCONSTANTS\n  Reqs = {%s}\n  Routed <- RoutedDef\n  Others = {\"q\"}\n  Kinds <- %s\n" % (
@@ -43,8 +51,9 @@ def cfg(modes, kinds="KindsFull", reqs=2, ops=2, srv=2, pip=2, other=2, same=1, 
     for k in ("InhRl", "ClsRl", "InhPx", "ClsPx"):
         t += '  %s = "%s"\n' % (k, modes[k])
     t += ("  MaxOps = %d\n  MaxSrv = %d\n  MaxPip = %d\n  MaxOther = %d\n  MaxSame = %d\n  MaxReq = %d\n  LoadPerStep = %s\n"
-          "  Targets = %s\n  Blocking = {\"px\"}\n  SrvKinds = %s\n  IPs = %s\n" % (
-              ops, srv, pip, other, same, maxreq, "TRUE" if lps else "FALSE", targets, srvkinds, ips))
+          "  Targets = %s\n  Blocking = %s\n  SrvKinds = %s\n  IPs = %s\n  PipKinds = %s\n  Classes = %s\n  Reuse = %s\n" % (
+              ops, srv, pip, other, same, maxreq, "TRUE" if lps else "FALSE", targets, blocking, srvkinds, ips, pipkinds, classes,
+              "TRUE" if reuse else "FALSE"))
     if not mc:
         t += '  Atomic = "%s"\n' % atomic
     if view:
@@ -54,11 +63,16 @@ def cfg(modes, kinds="KindsFull", reqs=2, ops=2, srv=2, pip=2, other=2, same=1, 
     return t
 
 
+# the configuration slice of the model: requests go straight to pipeline pa
+CONF_SLICE = dict(ops=2, srv=0, pip=2, other=0, same=0, maxreq=1, targets='{"pa"}', ips='{"n"}', srvkinds='{"both"}',
+                  pipkinds='{"filters","resil","both"}', classes='{"n","x","f"}')
+
 TRACE_CFG = ("SPECIFICATION TSpec\nCONSTANTS\n  Reqs = {\"w0\",\"w1\",\"w2\",\"w3\",\"w4\",\"w5\",\"w6\",\"w7\"}\n  Routed <- RoutedDef\n"
              "  Others = {\"q\"}\n  Kinds <- KindsFull\n  InhRl = \"share\"\n  ClsRl = \"none\"\n  InhPx = \"fresh\"\n  ClsPx = \"stop\"\n"
              "  MaxOps = 100000000\n  MaxSrv = 100000000\n  MaxPip = 100000000\n  MaxOther = 100000000\n  MaxSame = 100000000\n"
              "  MaxReq = 100000000\n  LoadPerStep = FALSE\n  Targets = {\"srv\",\"q\"}\n  Blocking = {\"px\"}\n"
              "  SrvKinds = {\"rules\",\"opts\",\"both\"}\n  IPs = {\"n\",\"b\"}\n"
+             "  PipKinds = {\"both\"}\n  Classes = {\"n\"}\n  Reuse = FALSE\n"
              "CONSTRAINT HWM\nPOSTCONDITION Accepted\n"
              "INVARIANTS Consistent NoFailure Available Visibility Isolation Settled TV_NoFailure TV_Consistent TV_NoOp TV_Visibility\n")
 
@@ -67,7 +81,9 @@ def run(ctx):
     ctx.cov["rule"] = ("behaviours = TLC -simulate schedules of HotUpdate (request steps LoadInst/Route/GetHandler/RunFilter/Done interleaved with "
                        "updater steps Build/Store, Begin/Inherit/Close/Store, ApplySame, Create/Delete) replayed step by step on the real objects "
                        "(per harness: httpserver+trafficcontroller+pipeline+filters, trafficcontroller, one-filter pipelines of every kind, bare "
-                       "RateLimiter/Proxy); traces = stress runs of the real mux/TrafficController validated by TLC; non-trivial = distinct schedules "
+                       "RateLimiter/Proxy); pipeline updates change the filters, the resilience section or both, and requests of class x "
+                       "(beyond the limit every generation configures) / f (failing backend call, retried as the held generation's retry "
+                       "policy says) show which configuration handled them; traces = stress runs of the real mux/TrafficController validated by TLC; non-trivial = distinct schedules "
                        "in which a request step happens between the first and the last step of an update, or a request holds a superseded generation")
     ctx.assumptions += [
         "the harness stops requests only where it can without hooks: between m.inst.Load() and serveHTTP, in its MuxMapper wrapper, in marker "
@@ -84,14 +100,28 @@ def run(ctx):
     jobs = []
     if ctx.phase("mc"):
         jobs.append(lambda: _mc(ctx, modes))      # model checking runs next to the harness jobs: it only needs the observed modes
-    if ctx.phase("mbt"):
-        jobs += [lambda: _mbt_http(ctx, modes), lambda: _mbt_tc(ctx), lambda: _mbt_filter(ctx, modes, "rl"), lambda: _mbt_filter(ctx, modes, "px")]
+    for sub, job in (("http", lambda: _mbt_http(ctx, modes)), ("tc", lambda: _mbt_tc(ctx)), ("rl", lambda: _mbt_filter(ctx, modes, "rl")),
+                     ("px", lambda: _mbt_filter(ctx, modes, "px"))):
+        if _sub(ctx, "mbt", sub):
+            jobs.append(job)
     if ctx.phase("kinds"):
-        jobs.append(lambda: _mbt_kinds(ctx))
+        jobs.append(lambda: _mbt_kinds(ctx, modes))
     if ctx.phase("tv"):
         for v in TV_VARIANTS:
             jobs.append(lambda v=v: _tv_one(ctx, *v))
     _parallel(ctx, jobs)
+
+
+def _sub(ctx, phase, sub):
+    """VERIF_PHASES=mbt runs every harness of the phase, VERIF_PHASES=mbt-http only one (debugging aid)"""
+    sel = os.environ.get("VERIF_PHASES")
+    return ctx.phase(phase) or (sel is not None and "%s-%s" % (phase, sub) in sel.split(","))
+
+
+def _together(*fns):
+    """runs independent TLC generator calls side by side; returns their results in order (exceptions propagate)"""
+    with concurrent.futures.ThreadPoolExecutor(max_workers=len(fns)) as ex:
+        return [f.result() for f in [ex.submit(fn) for fn in fns]]
 
 
 def _parallel(ctx, jobs):
@@ -146,12 +176,21 @@ def _mc(ctx, modes):
     else:
         r = ctx.tlc_mc(M, cfg(CONTRACT_MODES, ops=2, maxreq=1, mc=True), label="contract, 2 requests x 2 updater ops, all kinds of operations", timeout=1500)
         r2 = ctx.tlc_mc(M, cfg(CONTRACT_MODES, ops=3, maxreq=1, srvkinds='{"opts","both"}', mc=True), label="contract, 2 requests x 3 updater ops", timeout=2400)
-    ctx.log("contract model checked: %d + %d distinct states, depth %d / %d" % (r.distinct, r2.distinct, r.depth, r2.depth))
+    # configuration slice: pipeline generations that differ in the filters, in the resilience section or in both, and the
+    # request classes that make the configuration of the generation a request holds observable (limit, policies)
+    r3 = ctx.tlc_mc(M, cfg(CONTRACT_MODES, mc=True, **(dict(CONF_SLICE, classes='{"x","f"}') if ctx.quick else dict(CONF_SLICE, maxreq=2))),
+                    label="contract, configuration slice: 2 requests (classes n/x/f) x pipeline updates of filters / resilience / both",
+                    timeout=600 if ctx.quick else 1500)
+    ctx.log("contract model checked: %d + %d + %d distinct states, depth %d / %d / %d" % (r.distinct, r2.distinct, r3.distinct, r.depth, r2.depth, r3.depth))
     # the invariants are not vacuous: deliberately wrong implementation knobs must break them
     for label, c, want in (("knob: every step re-reads m.inst", cfg(CONTRACT_MODES, ops=1, maxreq=1, lps=True, mc=True), "Consistent"),
                            ("knob: Inherit moves the cell away (RateLimiter.reload at the pin)",
                             cfg(dict(CONTRACT_MODES, InhRl="move"), ops=1, maxreq=1, mc=True), "NoFailure"),
-                           ("knob: Close kills the state an in-flight call needs", cfg(dict(CONTRACT_MODES, ClsPx="kill"), ops=1, maxreq=1, mc=True), "NoFailure")):
+                           ("knob: Close kills the state an in-flight call needs", cfg(dict(CONTRACT_MODES, ClsPx="kill"), ops=1, maxreq=1, mc=True), "NoFailure"),
+                           ("knob: reload takes over the instance of a filter whose own spec is unchanged, with the policies it works under",
+                            cfg(CONTRACT_MODES, mc=True, reuse=True, **CONF_SLICE), "Configured"),
+                           ("knob: Close of the previous generation disables the limiter the new one shares",
+                            cfg(dict(CONTRACT_MODES, ClsRl="disable"), mc=True, **CONF_SLICE), "Limited")):
         k = ctx.tlc_mc(M, c, expect_ok=False, count=False, label=label, timeout=300)
         if k.ok or k.violated != want:
             ctx.inconclusive("HotUpdate: %s should violate %s but TLC says ok=%s violated=%s" % (label, want, k.ok, k.violated))
@@ -262,7 +301,7 @@ def _judge1(ctx, where, behs, recs, out, filt=None):
         if what.startswith("harness:") or "stuck" in what:
             ctx.inconclusive("C11 %s replay: %s\n%s" % (where, what, _short(m["behaviour"])))
         clause = {"panic": "NoFailure", "status": "NoFailure", "mixed": "Consistent", "noop": "NoOp", "isolation": "Isolation",
-                  "visibility": "Visibility", "stored": "Visibility", "available": "Available"}.get(what.split(":")[0], "Consistent/Visibility")
+                  "visibility": "Visibility", "stored": "Visibility", "available": "Available", "configured": "Configured"}.get(what.split(":")[0], "Consistent/Visibility")
         sig = {"kind": "replay", "clause": clause, "step": m["a"], "what": re.sub(r"\d+", "N", what)[:80]}
         ctx.violation(sig, "[%s] real system diverges from HotUpdate at step %d (%s): %s - schedule: %s" % (
             where, m["step"], m["a"], what, _short(m["behaviour"])), m)
@@ -273,9 +312,39 @@ def _short(beh):
     return " ".join("%s%s" % (s.get("a"), "(" + ",".join(str(s[k]) for k in ("r", "p", "g", "ver") if k in s) + ")") for s in beh[-14:])
 
 
+def _conf_cover(behs):
+    """how often a schedule shows the configuration of a generation that an update produced: a class "x" request limited by a
+    generation that is not the first and not closed; a class "f" request retried under the policies of a generation whose
+    resilience section and filters were not updated in lockstep"""
+    lim = pol = 0
+    for b in behs:
+        for s in b:
+            if s.get("a") in ("run", "exit") and s.get("ver", 0) > 1 and not s.get("closed"):
+                lim += s.get("res") == "limited"
+                pol += s.get("res") == "bfail" and s.get("fv") != s.get("pv")
+    return lim, pol
+
+
+def _need_cover(ctx, where, behs, minimum, need=("lim", "pol")):
+    lim, pol = _conf_cover(behs)
+    ctx.log("%s: %d requests beyond the limit on an updated generation, %d failing backend calls under a resilience section updated on its own / not updated" % (where, lim, pol))
+    if ("lim" in need and lim < minimum) or ("pol" in need and pol < minimum):
+        ctx.inconclusive("C11 %s: the schedules hardly show the configuration of updated generations (%d limited, %d retried; need %d)" % (where, lim, pol, minimum))
+
+
 def _mbt_http(ctx, modes):
     n = 300 if ctx.quick else 3000
-    behs, p = _behaviours(ctx, cfg(modes, ops=3, maxreq=2, atomic="gates", props=False, view=False), n, 45, "http")
+    dims = dict(atomic="gates", props=False, view=False, pipkinds='{"filters","resil","both"}')
+    # + configuration slice: requests of the classes that show the configuration of the generation they hold, all routed to
+    # pipeline pa, while pa / pb are updated (filters, resilience section or both) and the server's options are reloaded
+    (behs, p), (behs2, p2) = _together(
+        lambda: _behaviours(ctx, cfg(modes, ops=3, maxreq=2, classes='{"n","x","f"}', **dims), n, 45, "http"),
+        lambda: _behaviours(ctx, cfg(modes, ops=4, maxreq=3, srv=1, other=0, same=1, classes='{"x","f"}', targets='{"srv"}', ips='{"n"}',
+                                     srvkinds='{"opts"}', **dims), n // 2, 50, "http_conf"))
+    _need_cover(ctx, "httpserver", behs + behs2, 10)
+    behs = behs + behs2
+    with open(p, "a") as fh:
+        fh.write(open(p2).read())
     outp = ctx.path("c11_replay_http.ndjson")
     rc, out = ctx.go_test(P_HTTP, "^TestVerifC11Replay$", env={"VERIF_IN": p, "VERIF_OUT": outp}, timeout=1200)
     recs = ctx.read_ndjson(outp)
@@ -283,7 +352,14 @@ def _mbt_http(ctx, modes):
         ctx.inconclusive("C11 httpserver replay harness failed:\n" + out[-3000:])
     s = _judge(ctx, "httpserver", behs, recs, out)
     ctx.sample({"kind": "tlc-schedule (mux+trafficcontroller+pipeline+filters)", "steps": [{k: v for k, v in x.items() if k != "nsv"} for x in behs[0][:10]]})
-    ctx.log("httpserver: %d schedules, %d steps replayed" % (s["behaviours"], s["steps"]))
+    ctx.log("httpserver: %d schedules, %d steps replayed, %d class x/f requests judged against the configuration of the held generation, "
+            "%d schedules left at a closed generation, %d not replayable (an update the harness could not stop)" % (
+                s["behaviours"], s["steps"], s["judged"], s["unjudged"], s["ungated"]))
+    if s["ungated"]:
+        ctx.notes.append({"httpserver_schedules_not_replayable": s["ungated"],
+                          "why": "ApplyPipeline returned without calling Inherit on the last (unchanged) filter, and the schedule has a request step inside the update"})
+    if s["judged"] < len(behs) // 10:
+        ctx.inconclusive("C11 httpserver replay: only %d class x/f requests judged in %d schedules" % (s["judged"], len(behs)))
 
 
 def _mbt_tc(ctx):
@@ -302,8 +378,13 @@ def _mbt_tc(ctx):
 def _mbt_filter(ctx, modes, k):
     n = 150 if ctx.quick else 1500
     kinds, pkg, test = {"rl": ("KindsRl", P_RL, "^TestVerifC11RlReplay$"), "px": ("KindsPx", P_PX, "^TestVerifC11PxReplay$")}[k]
-    c = cfg(modes, kinds=kinds, ops=4, srv=0, maxreq=3, targets='{"pa","q"}', same=0, atomic="coarse", props=False, view=False)
+    # RateLimiter: updates that leave the filter's own spec alone (resilience section only) or change it, and requests of
+    # class "x" for a URL that every generation limits (the limiter is the state cell the generations share)
+    extra = dict(pipkinds='{"filters","resil","both"}', classes='{"n","x"}') if k == "rl" else {}
+    c = cfg(modes, kinds=kinds, ops=4, srv=0, maxreq=3, targets='{"pa","q"}', same=0, atomic="coarse", props=False, view=False, **extra)
     behs, p = _behaviours(ctx, c, n, 45, k)
+    if k == "rl":
+        _need_cover(ctx, "RateLimiter", behs, 5, need=("lim",))
     outp = ctx.path("c11_replay_%s.ndjson" % k)
     rc, out = ctx.go_test(pkg, test, env={"VERIF_IN": p, "VERIF_OUT": outp}, timeout=1200)
     recs = ctx.read_ndjson(outp)
@@ -313,12 +394,22 @@ def _mbt_filter(ctx, modes, k):
     ctx.log("%s: %d schedules, %d steps replayed" % (KIND_NAMES[k], s["behaviours"], s["steps"]))
 
 
-def _mbt_kinds(ctx):
+def _mbt_kinds(ctx, modes):
     n = 60 if ctx.quick else 400
-    c = cfg(CONTRACT_MODES, kinds="KindsOne", ops=3, srv=0, maxreq=2, targets='{"pa","q"}', same=0, atomic="coarse", props=False, view=False)
-    behs, p = _behaviours(ctx, c, n, 40, "kinds")
+    # every update changes the filter's own spec, the pipeline's resilience section or both
+    common = dict(ops=3, srv=0, maxreq=2, targets='{"pa","q"}', same=0, atomic="coarse", props=False, view=False, pipkinds='{"filters","resil","both"}')
+    # + the two kinds through which the configuration of the held generation shows: behaviours with request classes
+    # (x: beyond the limit every generation configures; f: the backend call fails and is retried as the resilience section says)
+    (behs, p), rl, px = _together(
+        lambda: _behaviours(ctx, cfg(CONTRACT_MODES, kinds="KindsOne", **common), n, 40, "kinds"),
+        lambda: _behaviours(ctx, cfg(modes, kinds="KindsRl", classes='{"n","x"}', **dict(common, ops=4, maxreq=3)), 2 * n, 45, "kinds_rl"),
+        lambda: _behaviours(ctx, cfg(modes, kinds="KindsPx", classes='{"n","f"}', blocking="{}", **dict(common, ops=4, maxreq=3)), 2 * n, 45, "kinds_px"))
+    cset = {"rl": rl, "px": px}
+    _need_cover(ctx, "pipeline/RateLimiter", cset["rl"][0], 5, need=("lim",))
+    _need_cover(ctx, "pipeline/Proxy/resilience", cset["px"][0], 5, need=("pol",))
     outp = ctx.path("c11_replay_kinds.ndjson")
-    rc, out = ctx.go_test(P_PIPE, "^TestVerifC11Kinds$", env={"VERIF_IN": p, "VERIF_OUT": outp}, timeout=1500)
+    rc, out = ctx.go_test(P_PIPE, "^TestVerifC11Kinds$", timeout=1500,
+                          env={"VERIF_IN": p, "VERIF_IN_RL": cset["rl"][1], "VERIF_IN_PX": cset["px"][1], "VERIF_OUT": outp})
     recs = ctx.read_ndjson(outp)
     if rc != 0:
         ctx.inconclusive("C11 pipeline (all kinds) replay harness failed:\n" + out[-3000:])
@@ -331,8 +422,17 @@ def _mbt_kinds(ctx):
     for kd in [x for x in kinds if x.get("built")]:
         krecs = [x for x in recs if x.get("kind") == kd["kind"] and x.get("k") in ("fail", "mismatch")]
         krecs.append({"k": "summary", "behaviours": kd["behaviours"], "steps": kd["steps"]})
-        _judge(ctx, "pipeline/" + kd["kind"], behs, krecs, out, filt=kd["kind"])
+        kb = cset[kd["beh"]][0] if kd.get("classes") else behs
+        _judge(ctx, "pipeline/" + kd["kind"], kb, krecs, out, filt=kd["kind"])
         total += kd["steps"]
+        if kd.get("classes"):
+            # vacuity: the class requests must have been judged after an update, on a generation that is not the first
+            ctx.log("pipeline/%s: %d schedules with request classes, %d class requests judged, %d schedules left at a closed generation" % (
+                kd["kind"], len(kb), kd["judged"], kd["unjudged"]))
+            if kd["judged"] < len(kb) // 4:
+                ctx.inconclusive("C11 pipeline/%s: only %d class requests judged in %d schedules" % (kd["kind"], kd["judged"], len(kb)))
+    if sorted(x["kind"] for x in kinds if x.get("classes")) != ["Proxy/resilience", "RateLimiter"]:
+        ctx.inconclusive("C11 pipeline sweep: the kinds that show the configuration of a generation (RateLimiter, Proxy/resilience) were not both replayed")
     ctx.log("pipeline: %d kinds x %d schedules, %d steps replayed; not built offline: %s" % (
         len([x for x in kinds if x.get("built")]), len(behs), total, sorted(x["kind"] for x in kinds if not x.get("built"))))
 
